@@ -9,6 +9,7 @@ import (
 	"fmt"
 	"go/ast"
 	"go/token"
+	"strings"
 )
 
 func init() { extraConsts = append(extraConsts, linConsts) }
@@ -171,6 +172,118 @@ func callsInLoop(fd *ast.FuncDecl, name string) bool {
 	return found
 }
 
+// receiver of a lock call as written: "m.mu", "parent", "f.fileData" ...
+func lockRecvText(e ast.Expr) string {
+	switch x := e.(type) {
+	case *ast.Ident:
+		return x.Name
+	case *ast.SelectorExpr:
+		return lockRecvText(x.X) + "." + x.Sel.Name
+	}
+	return "?"
+}
+
+// the Lock() calls of fd on FileData mutexes (every receiver but MemMapFs.mu), with the if
+// statement that directly encloses the lock statement (nil: unconditional) and whether a
+// `defer <same receiver>.Unlock()` follows in the same statement list
+type fileLock struct {
+	recv     string
+	pos      token.Pos
+	cond     ast.Expr
+	deferred bool
+}
+
+func fileLocksOf(fd *ast.FuncDecl) []fileLock {
+	var out []fileLock
+	var walk func(list []ast.Stmt, cond ast.Expr)
+	walkStmt := func(st ast.Stmt, cond ast.Expr) {}
+	walk = func(list []ast.Stmt, cond ast.Expr) {
+		for i, st := range list {
+			if es, ok := st.(*ast.ExprStmt); ok {
+				if ce, ok := es.X.(*ast.CallExpr); ok && len(ce.Args) == 0 {
+					if se, ok := ce.Fun.(*ast.SelectorExpr); ok && se.Sel.Name == "Lock" {
+						r := lockRecvText(se.X)
+						if r != "mu" && !strings.HasSuffix(r, ".mu") {
+							fl := fileLock{recv: r, pos: ce.Pos(), cond: cond}
+							for _, later := range list[i+1:] {
+								if ds, ok := later.(*ast.DeferStmt); ok {
+									if dse, ok := ds.Call.Fun.(*ast.SelectorExpr); ok && dse.Sel.Name == "Unlock" && lockRecvText(dse.X) == r {
+										fl.deferred = true
+									}
+								}
+							}
+							out = append(out, fl)
+						}
+					}
+				}
+			}
+			walkStmt(st, cond)
+		}
+	}
+	walkStmt = func(st ast.Stmt, cond ast.Expr) {
+		switch x := st.(type) {
+		case *ast.BlockStmt:
+			walk(x.List, cond)
+		case *ast.IfStmt:
+			walk(x.Body.List, x.Cond)
+			if x.Else != nil {
+				walkStmt(x.Else, x.Cond)
+			}
+		case *ast.ForStmt:
+			walk(x.Body.List, nil)
+		case *ast.RangeStmt:
+			walk(x.Body.List, nil)
+		}
+	}
+	walk(fd.Body.List, nil)
+	return out
+}
+
+// does the expression contain a call m.<name>(...) of a MemMapFs method that takes no lock itself?
+func condCallsLockfreeMethod(m *srcFile, e ast.Expr) bool {
+	found := false
+	if e == nil {
+		return false
+	}
+	ast.Inspect(e, func(x ast.Node) bool {
+		if ce, ok := x.(*ast.CallExpr); ok {
+			if se, ok := ce.Fun.(*ast.SelectorExpr); ok {
+				if h := m.fn("MemMapFs", se.Sel.Name); h != nil && lockShapeOf(h).acq == 0 {
+					found = true
+				}
+			}
+		}
+		return true
+	})
+	return found
+}
+
+// position of the first for/range statement of fd whose body calls <x>.<name>(...)
+func loopCalling(fd *ast.FuncDecl, name string) token.Pos {
+	pos := token.NoPos
+	ast.Inspect(fd, func(x ast.Node) bool {
+		var body *ast.BlockStmt
+		switch l := x.(type) {
+		case *ast.ForStmt:
+			body = l.Body
+		case *ast.RangeStmt:
+			body = l.Body
+		}
+		if body != nil && pos == token.NoPos {
+			ast.Inspect(body, func(y ast.Node) bool {
+				if ce, ok := y.(*ast.CallExpr); ok {
+					if se, ok := ce.Fun.(*ast.SelectorExpr); ok && se.Sel.Name == name {
+						pos = x.Pos()
+					}
+				}
+				return true
+			})
+		}
+		return true
+	})
+	return pos
+}
+
 func linConsts(repo string, add func(string, int64, string)) error {
 	b2i := func(b bool) int64 {
 		if b {
@@ -329,6 +442,101 @@ func linConsts(repo string, add func(string, int64, string)) error {
 				return fmt.Errorf("mem/file.go: Readdirnames: neither Readdir + Name() per entry nor names taken inside the directory's locked section recognised; update Model/Lin.v")
 			}
 			add("lin_readdirnames_outside", 0, doc)
+		}
+	}
+	// Rename and the directories' mutexes.  A handle on a directory lists it under that
+	// directory's mutex only, so Rename is one section for such listings only if
+	//   (i)  the entry leaves its old parent and enters its new one while both are locked, and
+	//   (ii) the children of a directory of the renamed subtree are re-keyed under one hold of it.
+	{
+		rn := m.fn("MemMapFs", "Rename")
+		ur := m.fn("MemMapFs", "unRegisterWithParent")
+		rg := m.fn("MemMapFs", "registerWithParent")
+		rd := m.fn("MemMapFs", "renameDescendants")
+		if rn == nil || ur == nil || rg == nil || rd == nil {
+			return fmt.Errorf("memmap.go: Rename / unRegisterWithParent / registerWithParent / renameDescendants not found")
+		}
+		if countMethodCalls(rn, "unRegisterWithParent") == 0 || countMethodCalls(rn, "registerWithParent") == 0 || countMethodCalls(rn, "renameDescendants") == 0 {
+			return fmt.Errorf("memmap.go: Rename: the calls unRegisterWithParent / renameDescendants / registerWithParent were not found; update Model/Lin.v")
+		}
+		// how the two helpers lock the parent: unconditionally (1 lock, deferred unlock), or only when
+		// the running Rename does not hold it already (the lock statement sits in an if whose condition
+		// asks a lock-free method of MemMapFs)
+		helperShape := func(fd *ast.FuncDecl) (skipHeld bool, err error) {
+			ls := fileLocksOf(fd)
+			if len(ls) != 1 || !ls[0].deferred {
+				return false, fmt.Errorf("memmap.go: %s: expected exactly one parent.Lock() with a deferred Unlock", fd.Name.Name)
+			}
+			if ls[0].cond == nil {
+				return false, nil
+			}
+			if !condCallsLockfreeMethod(m, ls[0].cond) {
+				return false, fmt.Errorf("memmap.go: %s: the parent is locked under a condition that is not recognised", fd.Name.Name)
+			}
+			return true, nil
+		}
+		urSkip, err := helperShape(ur)
+		if err != nil {
+			return err
+		}
+		rgSkip, err := helperShape(rg)
+		if err != nil {
+			return err
+		}
+		if urSkip != rgSkip {
+			return fmt.Errorf("memmap.go: unRegisterWithParent and registerWithParent lock the parent in different ways; update Model/Lin.v")
+		}
+		const docP = "memmap.go Rename: 1 iff the entry is removed from its old parent and added to its new parent under two separate holds (unRegisterWithParent ... registerWithParent, each locking on its own); 0 iff Rename holds both parents' mutexes across the move"
+		const docK = "memmap.go Rename: 1 iff the children of a renamed directory are unregistered and registered again one by one, each under holds of their own; 0 iff the children of one directory are re-keyed under one hold of that directory's mutex"
+		first := methodCallPos(rn, "unRegisterWithParent")[0]
+		own := fileLocksOf(rn)
+		switch {
+		case len(own) == 0 && !urSkip:
+			add("lin_rename_parents_apart", 1, docP)
+		case len(own) == 2 && urSkip:
+			for _, l := range own {
+				if !l.deferred || l.pos > first || l.cond == nil {
+					return fmt.Errorf("memmap.go: Rename: it locks directory mutexes, but not as `if p != nil { p.Lock(); defer p.Unlock() }` before unRegisterWithParent; update Model/Lin.v")
+				}
+			}
+			if own[0].recv == own[1].recv {
+				return fmt.Errorf("memmap.go: Rename: the two directory locks have the same receiver; update Model/Lin.v")
+			}
+			add("lin_rename_parents_apart", 0, docP)
+		default:
+			return fmt.Errorf("memmap.go: Rename: %d directory locks of its own, helpers skip held directories: %v: neither the two-holds shape nor the both-parents-held shape; update Model/Lin.v", len(own), urSkip)
+		}
+		// (ii): the function of the descendants' path that calls ChangeFileName in a loop
+		var body *ast.FuncDecl
+		if len(methodCallPos(rd, "ChangeFileName")) > 0 {
+			body = rd
+		} else {
+			ast.Inspect(rd, func(x ast.Node) bool {
+				if ce, ok := x.(*ast.CallExpr); ok {
+					if se, ok := ce.Fun.(*ast.SelectorExpr); ok {
+						if h := m.fn("MemMapFs", se.Sel.Name); h != nil && h != rd && len(methodCallPos(h, "ChangeFileName")) > 0 {
+							body = h
+						}
+					}
+				}
+				return true
+			})
+		}
+		if body == nil {
+			return fmt.Errorf("memmap.go: renameDescendants: the loop that renames the descendants (ChangeFileName) was not found; update Model/Lin.v")
+		}
+		loop := loopCalling(body, "ChangeFileName")
+		if loop == token.NoPos || countMethodCalls(body, "unRegisterWithParent") == 0 || countMethodCalls(body, "registerWithParent") == 0 {
+			return fmt.Errorf("memmap.go: %s: expected a loop calling unRegisterWithParent, ChangeFileName, registerWithParent; update Model/Lin.v", body.Name.Name)
+		}
+		kl := fileLocksOf(body)
+		switch {
+		case len(kl) == 0 && !urSkip:
+			add("lin_rename_children_apart", 1, docK)
+		case len(kl) == 1 && urSkip && kl[0].deferred && kl[0].pos < loop:
+			add("lin_rename_children_apart", 0, docK)
+		default:
+			return fmt.Errorf("memmap.go: %s: %d directory locks of its own (helpers skip held directories: %v): neither one hold per child operation nor one hold of the directory around the loop; update Model/Lin.v", body.Name.Name, len(kl), urSkip)
 		}
 	}
 	mk := m.fn("MemMapFs", "Mkdir")
